@@ -123,9 +123,8 @@ class Hist(Part):
                                 name="Archive-mc-6", timeout=3000))
         # TLAPS side-car (not the deciding mechanism): "content = non-dominated part of everything offered" is an inductive invariant of
         # the insertion rule for arbitrary universes, arbitrary set sizes and any irreflexive transitive relation -- every history length
-        proved = tlc.tlapm("proofs/ArchiveLaws.tla", ctx.scratch)
-        ctx.notes.append("tlapm proofs/ArchiveLaws.tla: %d obligations proved (insertion keeps mutual non-domination, rejected are dominated or "
-                         "equal, content = NonDominated(offered) is inductive)" % proved)
+        tlc.sidecar(ctx, "tlapm proofs/ArchiveLaws.tla (insertion keeps mutual non-domination, rejected are dominated or equal, content = "
+                    "NonDominated(offered) is inductive)", tlc.tlapm, "proofs/ArchiveLaws.tla", ctx.scratch)
         return runs
 
     def cases(self, ctx):
